@@ -75,7 +75,10 @@ def gen_case(rng, p_ops=0.85, p_pause=0.35, resume_items=True):
             prefs = ['running', 'running', 'inner', 'root', 'any', 'finished', 'item'] + \
                 (['again', 'again', 'parent', 'parent'] if i else [])
             r = rng.random()
-            if paused and r < 0.45 and (resume_items or not has_items):
+            if r > 0.93 and (resume_items or not has_items):
+                # a resume request addressed to a FINISHED (or any) execution; late results follow
+                o = {'at': at, 'op': 'resume', 'which': rng.randint(0, 7), 'pref': rng.choice(['finished', 'finished', 'again'])}
+            elif paused and r < 0.45 and (resume_items or not has_items):
                 o = {'at': at, 'op': 'resume', 'which': rng.randint(0, 7),
                      'pref': rng.choice(['paused', 'paused', 'root', 'again', 'any'])}
                 paused = False
